@@ -34,7 +34,8 @@ Record Post (S G pend : list task) (w w' : world) (seg : list event) : Prop := m
   po_nodup : NoDup (execs seg);
   po_fresh : forall x, In x (execs seg) -> ~ In x S /\ ~ In x G /\ memN x (consistent w) = false;
   po_mono : cons_mono w w';
-  po_cons : forall x, In x (execs seg) -> memN x (consistent w') = true \/ In x pend
+  po_cons : forall x, In x (execs seg) -> memN x (consistent w') = true \/ In x pend;
+  po_keep : forall s, In s S \/ In s G -> memN s (consistent w') = true -> memN s (consistent w) = true
 }.
 
 Lemma tn_inj a b : tn a = tn b -> a = b. Proof. unfold tn. lia. Qed.
@@ -76,16 +77,18 @@ Proof. intros H. constructor; try tauto; try (intros; reflexivity); cbn; try con
 
 Lemma post_quiet S G w w' :
   StoreOK w' -> (forall m, kids_of (gr w') m = kids_of (gr w) m) -> (forall m, live (gr w) m = true -> live (gr w') m = true) ->
-  trace w' = trace w -> cons_mono w w' -> Post S G [] w w' [].
+  trace w' = trace w -> consistent w' = consistent w -> Post S G [] w w' [].
 Proof.
   intros H K L T M. constructor; try assumption; cbn; try constructor; try tauto.
   - intros s _. apply K. - intros g x _ X. rewrite K. exact X.
+  - intros x X. rewrite M. exact X.
+  - intros s _ X. rewrite <- M. exact X.
 Qed.
 
 Lemma post_seq S G pend w w1 w2 a b :
   Post S G [] w w1 a -> Post S G pend w1 w2 b -> Post S G pend w w2 (a ++ b).
 Proof.
-  intros [A1 A2 A3 A4 A5 A6 A7 A8 A9] [B1 B2 B3 B4 B5 B6 B7 B8 B9]. constructor.
+  intros [A1 A2 A3 A4 A5 A6 A7 A8 A9 A10] [B1 B2 B3 B4 B5 B6 B7 B8 B9 B10]. constructor.
   - exact B1.
   - intros s Hs. rewrite B2, A2 by exact Hs. reflexivity.
   - intros g x Hg X. apply B3; [exact Hg|]. apply A3; assumption.
@@ -99,6 +102,7 @@ Proof.
   - intros x X. apply B8, A8. exact X.
   - intros x X. rewrite execs_app in X. apply in_app_or in X. destruct X as [X|X]; [|apply B9; exact X].
     destruct (A9 x X) as [Z|[]]. left. apply B8. exact Z.
+  - intros s Hs X. apply A10; [exact Hs|]. apply B10; assumption.
 Qed.
 
 (* weaker record for aborted computations: what matters is what was executed before the abort *)
@@ -109,10 +113,10 @@ Record PostA (S G : list task) (w w' : world) (seg : list event) : Prop := mkPos
   pa_fresh : forall x, In x (execs seg) -> ~ In x S /\ ~ In x G /\ memN x (consistent w) = false
 }.
 Lemma post_to_A S G pend w w' seg : Post S G pend w w' seg -> PostA S G w w' seg.
-Proof. intros [A1 A2 A3 A4 A5 A6 A7 A8 A9]. constructor; assumption. Qed.
+Proof. intros [A1 A2 A3 A4 A5 A6 A7 A8 A9 A10]. constructor; assumption. Qed.
 Lemma postA_seq S G w w1 w2 a b : Post S G [] w w1 a -> PostA S G w1 w2 b -> PostA S G w w2 (a ++ b).
 Proof.
-  intros [A1 A2 A3 A4 A5 A6 A7 A8 A9] [B1 B5 B6 B7]. constructor.
+  intros [A1 A2 A3 A4 A5 A6 A7 A8 A9 A10] [B1 B5 B6 B7]. constructor.
   - exact B1.
   - rewrite B5, A5, rev_app_distr, app_assoc. reflexivity.
   - rewrite execs_app. apply NoDup_app_intro_t; try assumption.
@@ -279,6 +283,8 @@ Proof.
   - eapply leaf_trans; eassumption. - eapply leaf_trans; eassumption. - left. reflexivity.
 Qed.
 
+End X.
+
 (* a leaf step of the executing task t, seen from the stack t :: S *)
 Lemma leaf_post S t pend w w' : Leaf t w w' -> ~ In t S -> exists seg, Post S [t] pend w w' seg.
 Proof.
@@ -292,10 +298,381 @@ Proof.
   - rewrite A3'. intros x [].
   - intros x X. rewrite A4. exact X.
   - rewrite A3'. intros x [].
+  - intros s _ X. rewrite <- A4. exact X.
 Qed.
 Lemma leaf_postA S t w w' : Leaf t w w' -> exists seg, PostA S [t] w w' seg.
 Proof.
   intros [A1 _ [seg [A3 A3']] _ _]. exists seg. constructor; [exact A1|exact A3|rewrite A3'; constructor|rewrite A3'; intros x []].
 Qed.
 
-End X.
+
+(* ---- more Post algebra ---- *)
+Lemma post_shift S t pend w w' seg : Post (t :: S) [] pend w w' seg -> Post S [t] pend w w' seg.
+Proof.
+  intros [A1 A2 A3 A4 A5 A6 A7 A8 A9 A10]. constructor; try assumption.
+  - intros s Hs. apply A2. right. exact Hs.
+  - intros g x [<-|[]] X. rewrite A2 by (left; reflexivity). exact X.
+  - intros x X. destruct (A7 x X) as [P1 [_ P3]]. split; [intros Y; apply P1; right; exact Y|].
+    split; [intros [<-|[]]; apply P1; left; reflexivity|exact P3].
+  - intros s [Hs|[<-|[]]]; apply A10; left; [right; exact Hs|left; reflexivity].
+Qed.
+Lemma post_drop S t pend w w' seg : Post (t :: S) [] pend w w' seg -> Post S [] pend w w' seg.
+Proof.
+  intros [A1 A2 A3 A4 A5 A6 A7 A8 A9 A10]. constructor; try assumption.
+  - intros s Hs. apply A2. right. exact Hs.
+  - intros x X. destruct (A7 x X) as [P1 [_ P3]]. split; [intros Y; apply P1; right; exact Y|]. split; [intros []|exact P3].
+  - intros s [Hs|[]]. apply A10. left. right. exact Hs.
+Qed.
+Lemma postA_shift S t w w' seg : PostA (t :: S) [] w w' seg -> PostA S [t] w w' seg.
+Proof.
+  intros [A1 A5 A6 A7]. constructor; try assumption.
+  intros x X. destruct (A7 x X) as [P1 [_ P3]]. split; [intros Y; apply P1; right; exact Y|].
+  split; [intros [<-|[]]; apply P1; left; reflexivity|exact P3].
+Qed.
+Lemma postA_drop S t w w' seg : PostA (t :: S) [] w w' seg -> PostA S [] w w' seg.
+Proof.
+  intros [A1 A5 A6 A7]. constructor; try assumption.
+  intros x X. destruct (A7 x X) as [P1 [_ P3]]. split; [intros Y; apply P1; right; exact Y|]. split; [intros []|exact P3].
+Qed.
+
+Lemma post_emit S G w e : StoreOK w -> noexec e -> Post S G [] w (emit w e) [e].
+Proof.
+  intros H N. assert (E : execs [e] = []) by (destruct e; try reflexivity; destruct N).
+  constructor.
+  - exact H. - intros; reflexivity. - intros g x _ X; exact X. - intros m X; exact X. - reflexivity.
+  - rewrite E. constructor. - rewrite E. intros x []. - intros x X; exact X. - rewrite E. intros x [].
+  - intros s _ X; exact X.
+Qed.
+Lemma post_push_err S G w e : StoreOK w -> Post S G [] w (push_err w e) [].
+Proof. intros H. apply post_quiet; try reflexivity; tauto. Qed.
+
+Lemma memN_cons x t l : memN x (t :: l) = N.eqb x t || memN x l. Proof. reflexivity. Qed.
+Lemma post_mark S G t w w' seg : Post S G [t] w w' seg -> ~ In t S -> ~ In t G -> Post S G [] w (mark_consistent w' t) seg.
+Proof.
+  intros [A1 A2 A3 A4 A5 A6 A7 A8 A9 A10] HS HG. constructor; try assumption.
+  - intros x X. unfold mark_consistent. cbn [consistent set_consistent]. rewrite memN_cons, (A8 x X). apply orb_true_r.
+  - intros x X. left. unfold mark_consistent. cbn [consistent set_consistent]. rewrite memN_cons.
+    destruct (A9 x X) as [Z|[<-|[]]]; [rewrite Z; apply orb_true_r|rewrite N.eqb_refl; reflexivity].
+  - intros s Hs X. unfold mark_consistent in X. cbn [consistent set_consistent] in X. rewrite memN_cons in X.
+    destruct (N.eqb_spec s t) as [->|Hne]; [destruct Hs; tauto|]. apply A10; assumption.
+Qed.
+
+Lemma post_pend S G pend w w' seg : Post S G [] w w' seg -> Post S G pend w w' seg.
+Proof. intros [A1 A2 A3 A4 A5 A6 A7 A8 A9 A10]. constructor; try assumption. intros x X. destruct (A9 x X) as [Z|[]]. left. exact Z. Qed.
+
+(* composition through outcomes *)
+Lemma okP_pre {A} S G pend w w1 a (m : outcome A) extra :
+  Post S G [] w w1 a -> okP S G pend w1 m extra -> okP S G pend w m extra.
+Proof.
+  intros P1. destruct m as [x w2|k w2|]; cbn; [| |tauto].
+  - intros [[b P2] X]. split; [|exact X]. exists (a ++ b). eapply post_seq; eassumption.
+  - intros [->|[b P2]]; [left; reflexivity|right]. exists (a ++ b). eapply postA_seq; eassumption.
+Qed.
+Lemma okP_bind {A B} S G pend w (m : outcome A) (f : A -> world -> outcome B) extraA extraB :
+  okP S G [] w m extraA ->
+  (forall a w1 seg, Post S G [] w w1 seg -> extraA a w1 -> okP S G pend w1 (f a w1) extraB) ->
+  okP S G pend w (bind m f) extraB.
+Proof.
+  destruct m as [x w1|k w1|]; cbn; [| |tauto].
+  - intros [[a P1] X] F. eapply okP_pre; [exact P1|]. eapply F; eassumption.
+  - intros H _. exact H.
+Qed.
+Lemma okP_shift {A} S t pend w (m : outcome A) extra : okP (t :: S) [] pend w m extra -> okP S [t] pend w m extra.
+Proof.
+  destruct m as [x w1|k w1|]; cbn; [| |tauto].
+  - intros [[a P1] X]. split; [exists a; apply post_shift; exact P1|exact X].
+  - intros [->|[a P1]]; [left; reflexivity|right; exists a; apply postA_shift; exact P1].
+Qed.
+Lemma okP_drop {A} S t pend w (m : outcome A) extra : okP (t :: S) [] pend w m extra -> okP S [] pend w m extra.
+Proof.
+  destruct m as [x w1|k w1|]; cbn; [| |tauto].
+  - intros [[a P1] X]. split; [exists a; apply (post_drop S t); exact P1|exact X].
+  - intros [->|[a P1]]; [left; reflexivity|right; exists a; apply (postA_drop S t); exact P1].
+Qed.
+Lemma okP_extra {A} S G pend w (m : outcome A) (e1 e2 : A -> world -> Prop) :
+  (forall a w', e1 a w' -> e2 a w') -> okP S G pend w m e1 -> okP S G pend w m e2.
+Proof. intros F. destruct m; cbn; [|tauto|tauto]. intros [X Y]. split; [exact X|apply F; exact Y]. Qed.
+
+Definition leafO {A} (t : task) (w : world) (m : outcome A) : Prop :=
+  match m with Done _ w' => Leaf t w w' | Abort k w' => k = ABug 4 \/ Leaf t w w' | OutOfFuel => True end.
+Lemma okP_of_leafO {A} S t w (m : outcome A) :
+  ~ In t S -> cur w = Some t -> leafO t w m -> okP S [t] [] w m (fun _ w' => cur w' = Some t).
+Proof.
+  intros Ht Hc. destruct m as [x w1|k w1|]; cbn; [| |tauto].
+  - intros L. split; [apply (leaf_post S t [] w w1 L Ht)|rewrite (lf_cur _ _ _ L); exact Hc].
+  - intros [->|L]; [left; reflexivity|right]. apply (leaf_postA S t w w1 L).
+Qed.
+
+Lemma chain_post w w1 S t pend seg : Chain w (t :: S) -> Post S [t] pend w w1 seg -> Chain w1 (t :: S).
+Proof. intros [N C] P1. split; [exact N|]. apply (chain_grow w w1); [exact C|apply (po_frame _ _ _ _ _ _ P1)]. Qed.
+Lemma chain_post_all w w1 S pend seg : Chain w S -> Post S [] pend w w1 seg -> Chain w1 S.
+Proof. intros [N C] P1. split; [exact N|]. apply (chain_frame w w1); [exact C|apply (po_frame _ _ _ _ _ _ P1)]. Qed.
+Lemma chain_head_notin w S t : Chain w (t :: S) -> ~ In t S.
+Proof. intros [N _]. inversion N; assumption. Qed.
+
+(* ---- the interpreter under the ghost stack ---- *)
+Section Y.
+Variable RC : rcid -> rchecker.
+Variable OC : ocid -> ochecker.
+Variable P : task -> prog.
+
+(* make_task_consistent entered for t below the stack S: nothing recorded for a stack task changes, nothing on the stack is
+   executed or marked, every executed task was not consistent before and is consistent afterwards *)
+Definition MCspec (mc : world -> task -> outcome Z) : Prop :=
+  forall w t S, StoreOK w -> Chain w S -> entry_ok w S t ->
+    okP S [] [] w (mc w t) (fun _ w' => cur w' = cur w).
+Definition REQspec (t : task) (S : list task) (req : world -> task -> ocid -> outcome Z) : Prop :=
+  forall w x c, StoreOK w -> Chain w (t :: S) -> cur w = Some t ->
+    okP S [t] [] w (req w x c) (fun _ w' => cur w' = Some t).
+
+Lemma leaf_chain w w' S t : Chain w (t :: S) -> Leaf t w w' -> Chain w' (t :: S).
+Proof.
+  intros C L. pose proof (chain_head_notin _ _ _ C) as Ht. destruct C as [N C]. split; [exact N|].
+  apply (chain_grow w w'); [exact C|]. intros s Hs. apply (lf_grows _ _ _ L). intros E. apply tn_inj in E. subst. tauto.
+Qed.
+
+Lemma require_with_spec mc t S : MCspec mc -> REQspec t S (require_with OC mc).
+Proof.
+  intros HM w x c H C Hc. pose proof (chain_head_notin _ _ _ C) as Ht. unfold require_with.
+  assert (L2 : Leaf t w (get_or_create_task_node (emit w (ERequireStart x c)) x)).
+  { eapply leaf_trans; [apply (leaf_emit t w (ERequireStart x c) H Logic.I)|apply leaf_goc_task; exact H]. }
+  set (w2 := get_or_create_task_node (emit w (ERequireStart x c)) x) in *.
+  assert (Hc2 : cur w2 = Some t) by (rewrite (lf_cur _ _ _ L2); exact Hc).
+  unfold reserve_require_dependency. rewrite Hc2.
+  pose proof (leaf_add_dependency t w2 (tn x) DReserved (lf_ok _ _ _ L2) (tn_even x)) as A.
+  assert (Hw : is_write (Some DReserved) = true -> forall r, tn x = rn r -> writers (gr w2) r = []) by (intros X; discriminate).
+  specialize (A Hw).
+  destruct (add_dependency w2 (tn t) (tn x) DReserved) as [[| |] w3] eqn:AD; cbn [bind].
+  - assert (L3 : Leaf t w w3) by (eapply leaf_trans; eassumption).
+    assert (E3 : edge w3 t x) by (eapply add_dependency_edge; [apply (lf_ok _ _ _ L2)|exact AD]).
+    assert (Hc3 : cur w3 = Some t) by (rewrite (lf_cur _ _ _ L3); exact Hc).
+    destruct (leaf_post S t [] w w3 L3 Ht) as [s03 P03]. eapply okP_pre; [exact P03|].
+    pose proof (leaf_chain w w3 S t C L3) as C3.
+    apply (okP_bind S [t] [] w3 (mc w3 x) _ (fun _ w' => cur w' = Some t)).
+    + apply okP_shift. eapply okP_extra; [|apply (HM w3 x (t :: S) (lf_ok _ _ _ L3) C3 E3)].
+      intros a0 w' X. cbn beta in X. rewrite X. exact Hc3.
+    + intros o w4 s4 P4 Hc4.
+      set (w5 := emit w4 (ERequireEnd x c (oc_stamp (OC c) o) o)).
+      assert (P45 : Post S [t] [] w4 w5 [ERequireEnd x c (oc_stamp (OC c) o) o]) by (apply post_emit; [apply (po_ok _ _ _ _ _ _ P4)|exact Logic.I]).
+      eapply okP_pre; [exact P45|].
+      pose proof (pr_update _ _ (StoreOK_preserved RC) w5 x c (oc_stamp (OC c) o) (po_ok _ _ _ _ _ _ P45)) as U.
+      unfold update_require_dependency in *. change (cur w5) with (cur w4) in *. rewrite Hc4 in *.
+      destruct (get_edata (gr w5) (tn t) (tn x)) as [dd|]; cbn [bind].
+      * cbn in U. split; [|exact Hc4]. exists []. apply post_quiet; try reflexivity; [exact U|tauto].
+      * right. exists []. apply (post_to_A S [t] []). apply post_refl. apply (po_ok _ _ _ _ _ _ P45).
+  - right. apply (leaf_postA S t w w3). eapply leaf_trans; eassumption.
+  - left. reflexivity.
+Qed.
+
+Lemma exec_prog_spec t S req : REQspec t S req ->
+  forall p w, StoreOK w -> Chain w (t :: S) -> cur w = Some t ->
+    okP S [t] [] w (exec_prog RC OC req p w) (fun _ w' => cur w' = Some t).
+Proof.
+  intros HR. induction p as [o| |x c k IH|r c k IH|r c v k IH|r c v k IH]; intros w H C Hc; cbn [exec_prog];
+    pose proof (chain_head_notin _ _ _ C) as Ht.
+  - split; [exists []; apply post_refl; exact H|exact Hc].
+  - right. exists []. apply (post_to_A S [t] []). apply post_refl. exact H.
+  - eapply okP_bind; [apply HR; assumption|]. intros o w1 s1 P1 Hc1. apply IH; [apply (po_ok _ _ _ _ _ _ P1)|eapply chain_post; eassumption|exact Hc1].
+  - eapply okP_bind; [apply okP_of_leafO; [exact Ht|exact Hc|apply (sess_read_leaf RC w t r c H Hc)]|].
+    intros o w1 s1 P1 Hc1. apply IH; [apply (po_ok _ _ _ _ _ _ P1)|eapply chain_post; eassumption|exact Hc1].
+  - eapply okP_bind; [apply okP_of_leafO; [exact Ht|exact Hc|apply (sess_write_leaf RC w t r c v H Hc)]|].
+    intros o w1 s1 P1 Hc1. apply IH; [apply (po_ok _ _ _ _ _ _ P1)|eapply chain_post; eassumption|exact Hc1].
+  - eapply okP_bind; [apply okP_of_leafO; [exact Ht|exact Hc|apply (sess_written_to_leaf RC w t r c v H Hc)]|].
+    intros o w1 s1 P1 Hc1. apply IH; [apply (po_ok _ _ _ _ _ _ P1)|eapply chain_post; eassumption|exact Hc1].
+Qed.
+
+Lemma reset_task_facts w t : StoreOK w ->
+  StoreOK (reset_task w t) /\
+  (forall m, m <> tn t -> kids_of (gr (reset_task w t)) m = kids_of (gr w) m) /\
+  (forall m, live (gr w) m = true -> live (gr (reset_task w t)) m = true) /\
+  trace (reset_task w t) = trace w /\ consistent (reset_task w t) = consistent w /\ cur (reset_task w t) = cur w.
+Proof.
+  intros H. destruct (remove_outgoing_other (gr w) (tn t) (proj1 H)) as [K [L _]].
+  split; [apply GOK_remove_outgoing; exact H|]. split; [exact K|]. split; [exact L|]. repeat split.
+Qed.
+
+Lemma execute_with_spec t S req : REQspec t S req ->
+  forall w, StoreOK w -> Chain w (t :: S) -> memN t (consistent w) = false ->
+    okP S [] [t] w (execute_with RC OC P req w t) (fun _ w' => cur w' = cur w).
+Proof.
+  intros HR w H C Hn. pose proof (chain_head_notin _ _ _ C) as Ht. unfold execute_with.
+  destruct (reset_task_facts w t H) as [H1 [K1 [L1 [T1 [C1 U1]]]]].
+  set (w1 := reset_task w t) in *.
+  set (w2 := emit (set_cur w1 (Some t)) (EExecStart t)).
+  assert (H2 : StoreOK w2) by exact H1.
+  assert (Ch2 : Chain w2 (t :: S)).
+  { destruct C as [N C]. split; [exact N|]. apply (chain_grow w w2); [exact C|].
+    intros s Hs. apply K1. intros E. apply tn_inj in E. subst. tauto. }
+  pose proof (exec_prog_spec t S req HR (P t) w2 H2 Ch2 eq_refl) as B.
+  destruct (exec_prog RC OC req (P t) w2) as [o w3|k w3|]; cbn [bind okP] in *; [| |exact Logic.I].
+  - destruct B as [[body [A1 A2 A3 A4 A5 A6 A7 A8 A9 A10]] Hc3]. split; [|exact U1].
+    exists (EExecStart t :: body ++ [EExecEnd t o]).
+    assert (EX : execs (EExecStart t :: body ++ [EExecEnd t o]) = t :: execs body).
+    { change (EExecStart t :: body ++ [EExecEnd t o]) with ([EExecStart t] ++ body ++ [EExecEnd t o]).
+      rewrite !execs_app. cbn. rewrite app_nil_r. reflexivity. }
+    constructor.
+    + apply (pr_exec_end _ _ (StoreOK_preserved RC)). exact A1.
+    + intros s Hs. change (kids_of (gr w3) (tn s) = kids_of (gr w) (tn s)). rewrite A2 by exact Hs. change (gr w2) with (gr w1).
+      apply K1. intros E. apply tn_inj in E. subst. tauto.
+    + intros g x [].
+    + intros m Lm. change (live (gr w3) m = true). apply A4. apply L1. exact Lm.
+    + change (EExecEnd t o :: trace w3 = rev (EExecStart t :: body ++ [EExecEnd t o]) ++ trace w).
+      rewrite A5. change (trace w2) with (EExecStart t :: trace w1). rewrite T1.
+      cbn [rev]. rewrite rev_app_distr. cbn [rev app]. rewrite <- !app_assoc. reflexivity.
+    + rewrite EX. constructor; [|exact A6]. intros X. destruct (A7 t X) as [_ [Y _]]. apply Y. left. reflexivity.
+    + rewrite EX. intros x [<-|X]; [split; [exact Ht|split; [intros []|exact Hn]]|].
+      destruct (A7 x X) as [Q1 [Q2 Q3]]. split; [exact Q1|]. split; [intros []|]. change (consistent w2) with (consistent w1) in Q3. rewrite C1 in Q3. exact Q3.
+    + intros x X. change (memN x (consistent w3) = true). apply A8. change (consistent w2) with (consistent w1). rewrite C1. exact X.
+    + rewrite EX. intros x [<-|X]; [right; left; reflexivity|]. left. destruct (A9 x X) as [Z|[]]. exact Z.
+    + intros s [Hs|[]] X. change (memN s (consistent w3) = true) in X. apply A10 in X; [|left; exact Hs].
+      change (consistent w2) with (consistent w1) in X. rewrite C1 in X. exact X.
+  - destruct B as [->|[body [A1 A5 A6 A7]]]; [left; reflexivity|right].
+    exists (EExecStart t :: body).
+    assert (EX : execs (EExecStart t :: body) = t :: execs body) by reflexivity.
+    constructor.
+    + exact A1.
+    + rewrite A5. change (trace w2) with (EExecStart t :: trace w1). rewrite T1.
+      cbn [rev]. rewrite <- app_assoc. reflexivity.
+    + rewrite EX. constructor; [|exact A6]. intros X. destruct (A7 t X) as [_ [Y _]]. apply Y. left. reflexivity.
+    + rewrite EX. intros x [<-|X]; [split; [exact Ht|split; [intros []|exact Hn]]|].
+      destruct (A7 x X) as [Q1 [Q2 Q3]]. split; [exact Q1|]. split; [intros []|]. change (consistent w2) with (consistent w1) in Q3. rewrite C1 in Q3. exact Q3.
+Qed.
+
+Lemma exec_mark_spec t S req : REQspec t S req ->
+  forall w, StoreOK w -> Chain w (t :: S) -> memN t (consistent w) = false ->
+    okP S [] [] w (bind (execute_with RC OC P req w t) (fun o w2 => Done o (mark_consistent w2 t))) (fun _ w' => cur w' = cur w).
+Proof.
+  intros HR w H C Hn. pose proof (execute_with_spec t S req HR w H C Hn) as E.
+  destruct (execute_with RC OC P req w t) as [o w2|k w2|]; cbn [bind okP] in *; [| |exact Logic.I].
+  - destruct E as [[seg Q] Hc]. split; [|exact Hc]. exists seg. apply post_mark; [exact Q|eapply chain_head_notin; exact C|intros []].
+  - exact E.
+Qed.
+
+Lemma deps_edge w t x c st : StoreOK w -> In (Some (DRequire x c st)) (deps_of_task w t) -> edge w t x.
+Proof.
+  intros [_ [T _]] Hin. unfold deps_of_task, get_outgoing_edges in Hin. rewrite map_map in Hin. cbn [snd] in Hin.
+  apply in_map_iff in Hin. destruct Hin as [d [E Hd]]. destruct (T _ _ _ E) as [_ X]. cbn in X. subst d. exact Hd.
+Qed.
+
+Lemma check_deps_spec mc t S : MCspec mc ->
+  forall ds w, StoreOK w -> Chain w (t :: S) -> (forall x c st, In (Some (DRequire x c st)) ds -> edge w t x) ->
+    okP (t :: S) [] [] w (check_deps RC OC mc ds w) (fun _ w' => cur w' = cur w).
+Proof.
+  intros HM. induction ds as [|d tl IH]; intros w H C HE; cbn [check_deps].
+  - split; [exists []; apply post_refl; exact H|reflexivity].
+  - assert (AB : forall k, okP (t :: S) [] [] w (Abort k w : outcome bool) (fun _ w' => cur w' = cur w)).
+    { intros k. right. exists []. apply (post_to_A (t :: S) [] []). apply post_refl. exact H. }
+    destruct d as [[|x c st|r c st|r c st]|]; try apply AB.
+    + set (w1 := emit w (ECheckTaskStart x c st)).
+      assert (P1 : Post (t :: S) [] [] w w1 [ECheckTaskStart x c st]) by (apply post_emit; [exact H|exact Logic.I]).
+      eapply okP_pre; [exact P1|].
+      apply (okP_bind (t :: S) [] [] w1 (mc w1 x) _ (fun _ w' => cur w' = cur w1)).
+      * apply HM; [exact H|apply (chain_post_all w w1 _ _ _ C P1)|]. cbn. apply (HE x c st). left. reflexivity.
+      * intros o w2 s2 P2 Hc2.
+        set (w3 := emit w2 (ECheckTaskEnd x c st (negb (oc_check (OC c) o st)))).
+        assert (P3 : Post (t :: S) [] [] w2 w3 [ECheckTaskEnd x c st (negb (oc_check (OC c) o st))]) by (apply post_emit; [apply (po_ok _ _ _ _ _ _ P2)|exact Logic.I]).
+        eapply okP_pre; [exact P3|].
+        destruct (oc_check (OC c) o st).
+        -- eapply okP_extra; [|apply IH].
+           ++ intros a w' X. cbn beta in *. rewrite X. exact Hc2.
+           ++ apply (po_ok _ _ _ _ _ _ P3).
+           ++ eapply (chain_post_all w w3); [exact C|]. eapply (post_seq _ _ _ w w1 w3); [exact P1|]. eapply (post_seq _ _ _ w1 w2 w3); eassumption.
+           ++ intros y c' st' Y. unfold edge. change (gr w3) with (gr w2). rewrite (po_frame _ _ _ _ _ _ P2) by (left; reflexivity).
+              apply (HE y c' st'). right. exact Y.
+        -- split; [exists []; apply post_refl; apply (po_ok _ _ _ _ _ _ P3)|exact Hc2].
+    + unfold check_resource_td. cbv zeta.
+      set (w1 := emit w (ECheckResStart r c st)).
+      set (xx := rc_check (RC c) (env w1) r (get_content w1 r) st).
+      set (w2 := emit w1 (ECheckResEnd r c st xx)).
+      assert (P2 : Post (t :: S) [] [] w w2 ([ECheckResStart r c st] ++ [ECheckResEnd r c st xx])).
+      { eapply post_seq; apply post_emit; try exact H; exact Logic.I. }
+      destruct xx as [| |e]; cbv iota beta.
+      * eapply okP_pre; [exact P2|]. eapply okP_extra; [|apply (IH w2); [exact H|apply (chain_post_all w w2 _ _ _ C P2)|]].
+        -- intros a w' X. exact X.
+        -- intros y c' st' Y. apply (HE y c' st'). right. exact Y.
+      * split; [eexists; exact P2|reflexivity].
+      * split; [|reflexivity]. eexists. eapply post_seq; [exact P2|]. apply post_push_err. exact H.
+    + unfold check_resource_td. cbv zeta.
+      set (w1 := emit w (ECheckResStart r c st)).
+      set (xx := rc_check (RC c) (env w1) r (get_content w1 r) st).
+      set (w2 := emit w1 (ECheckResEnd r c st xx)).
+      assert (P2 : Post (t :: S) [] [] w w2 ([ECheckResStart r c st] ++ [ECheckResEnd r c st xx])).
+      { eapply post_seq; apply post_emit; try exact H; exact Logic.I. }
+      destruct xx as [| |e]; cbv iota beta.
+      * eapply okP_pre; [exact P2|]. eapply okP_extra; [|apply (IH w2); [exact H|apply (chain_post_all w w2 _ _ _ C P2)|]].
+        -- intros a w' X. exact X.
+        -- intros y c' st' Y. apply (HE y c' st'). right. exact Y.
+      * split; [eexists; exact P2|reflexivity].
+      * split; [|reflexivity]. eexists. eapply post_seq; [exact P2|]. apply post_push_err. exact H.
+Qed.
+
+Lemma goc_task_post S w t : StoreOK w -> Post S [] [] w (get_or_create_task_node w t) [].
+Proof.
+  intros H. pose proof (leaf_goc_task t w t H) as [A1 [G1 [G2 G3]] _ A4 _].
+  assert (K : forall m, kids_of (gr (get_or_create_task_node w t)) m = kids_of (gr w) m).
+  { intros m. unfold get_or_create_task_node. destruct (live (gr w) (tn t)) eqn:L; [reflexivity|]. apply (add_node_same _ _ L). }
+  apply post_quiet; try assumption. unfold get_or_create_task_node. destruct (live _ _); reflexivity.
+Qed.
+
+Theorem make_consistent_td_spec fuel : MCspec (make_consistent_td RC OC P fuel).
+Proof.
+  induction fuel as [|f IH]; intros w t S H C E; cbn [make_consistent_td]; [exact Logic.I|].
+  pose proof (goc_task_post S w t H) as P0.
+  set (w0 := get_or_create_task_node w t) in *.
+  assert (Hc0 : cur w0 = cur w) by (unfold w0, get_or_create_task_node; destruct (live _ _); reflexivity).
+  eapply okP_pre; [exact P0|]. eapply okP_extra; [intros a w' X; rewrite <- Hc0; exact X|].
+  pose proof (po_ok _ _ _ _ _ _ P0) as H0.
+  pose proof (chain_post_all w w0 S [] [] C P0) as C0.
+  assert (E0 : entry_ok w0 S t).
+  { destruct S as [|top tl]; [exact Logic.I|]. cbn in *. unfold edge in *. rewrite (po_frame _ _ _ _ _ _ P0) by (left; reflexivity). exact E. }
+  pose proof (entry_not_in w0 S t (proj1 H0) C0 E0) as Ht.
+  assert (C1 : Chain w0 (t :: S)).
+  { destruct C0 as [N0 K0]. split; [constructor; assumption|]. destruct S as [|top tl]; [exact Logic.I|]. split; [exact E0|exact K0]. }
+  pose proof (require_with_spec (make_consistent_td RC OC P f) t S IH) as HR.
+  destruct (memN t (consistent w0)) eqn:Hm.
+  - destruct (get_task_output w0 t).
+    + split; [exists []; apply post_refl; exact H0|reflexivity].
+    + right. exists []. apply (post_to_A S [] []). apply post_refl. exact H0.
+  - destruct (get_task_output w0 t) as [o0|].
+    + pose proof (check_deps_spec (make_consistent_td RC OC P f) t S IH (deps_of_task w0 t) w0 H0 C1) as CD.
+      assert (HE : forall x c st, In (Some (DRequire x c st)) (deps_of_task w0 t) -> edge w0 t x) by (intros x c st; apply deps_edge; exact H0).
+      specialize (CD HE).
+      destruct (check_deps RC OC (make_consistent_td RC OC P f) (deps_of_task w0 t) w0) as [ok w1|k w1|]; cbn [bind]; [| |exact Logic.I].
+      * destruct CD as [[s1 P1] Hc1]. pose proof (post_drop _ _ _ _ _ _ P1) as P1'.
+        eapply okP_pre; [exact P1'|]. eapply okP_extra; [intros a w' X; rewrite <- Hc1; exact X|].
+        assert (C1' : Chain w1 (t :: S)) by (eapply chain_post_all; eassumption).
+        assert (Hm1 : memN t (consistent w1) = false).
+        { destruct (memN t (consistent w1)) eqn:Z; [|reflexivity]. apply (po_keep _ _ _ _ _ _ P1) in Z; [congruence|left; left; reflexivity]. }
+        destruct (if ok then get_task_output w1 t else None) as [o|].
+        -- split; [|reflexivity]. exists []. apply post_mark; [|exact Ht|intros []].
+           apply post_pend. apply post_refl. apply (po_ok _ _ _ _ _ _ P1).
+        -- apply exec_mark_spec; try assumption. apply (po_ok _ _ _ _ _ _ P1).
+      * apply (okP_drop S t). exact CD.
+    + apply exec_mark_spec; assumption.
+Qed.
+
+(* requiring a task that is on the stack (executing, or being validated below an executing task) is diagnosed as a cycle *)
+Theorem require_on_stack_aborts mc w t S x c :
+  StoreOK w -> Chain w (t :: S) -> cur w = Some t -> In x (t :: S) ->
+  exists w', require_with OC mc w x c = Abort ACycle w' \/ require_with OC mc w x c = Abort (ABug 4) w'.
+Proof.
+  intros H C Hc Hx. unfold require_with.
+  assert (L2 : Leaf t w (get_or_create_task_node (emit w (ERequireStart x c)) x)).
+  { eapply leaf_trans; [apply (leaf_emit t w (ERequireStart x c) H Logic.I)|apply leaf_goc_task; exact H]. }
+  set (w2 := get_or_create_task_node (emit w (ERequireStart x c)) x) in *.
+  assert (Hc2 : cur w2 = Some t) by (rewrite (lf_cur _ _ _ L2); exact Hc).
+  pose proof (leaf_chain w w2 S t C L2) as C2. pose proof (lf_ok _ _ _ L2) as H2.
+  unfold reserve_require_dependency. rewrite Hc2. unfold add_dependency.
+  assert (Cyc : tn t = tn x \/ path (gr w2) (tn x) (tn t)).
+  { destruct (chain_path w2 (t :: S) x (proj2 C2) Hx t eq_refl) as [->|Pth]; [left; reflexivity|right; exact Pth]. }
+  destruct (live (gr w2) (tn t)) eqn:Lt; [destruct (live (gr w2) (tn x)) eqn:Lx|].
+  - pose proof (add_edge_cycle_iff (gr w2) (tn t) (tn x) DReserved (proj1 H2) Lt Lx) as I.
+    destruct (add_edge (gr w2) (tn t) (tn x) DReserved) as [[b|[|]|] g'] eqn:AE; cbn [fst bind] in *.
+    + exfalso. destruct (I ltac:(discriminate)) as [_ I2]. specialize (I2 Cyc). discriminate.
+    + exfalso. destruct (I ltac:(discriminate)) as [_ I2]. specialize (I2 Cyc). discriminate.
+    + eexists. left. reflexivity.
+    + eexists. right. reflexivity.
+  - exfalso. destruct Cyc as [Cyc|Cyc]; [rewrite Cyc in Lt; congruence|]. apply (path_live _ _ _ (proj1 H2)) in Cyc. destruct Cyc; congruence.
+  - unfold add_edge. rewrite Lt. cbn [negb orb bind]. eexists. right. reflexivity.
+Qed.
+End Y.
